@@ -324,6 +324,10 @@ func (c *Ctx) callsSemverNewVersion(fn *ssa.Function, depth int) bool {
 			if isFn(staticCallee(&call.Call), semverPkg, "NewVersion") {
 				found = true
 			}
+			// through a helper that hands its argument on
+			if sf := staticFn(&call.Call); sf != nil && sf != fn && c.callsSemverNewVersion(sf, depth+1) {
+				found = true
+			}
 		}
 	})
 	return found
